@@ -54,7 +54,10 @@ class Env:
         self.base = {}
         if tls:
             self.base["confdir"] = self.tmp
+            self.opts.update(confdir=self.tmp)   # before anything else can make TlsConfig look at ~/.mitmproxy
         self.addon_errors = []
+        import atexit
+        atexit.register(self.close)
 
     @classmethod
     def get(cls, tls: bool = False) -> "Env":
@@ -65,11 +68,18 @@ class Env:
         return cls._inst
 
     def configure(self, **kw):
-        """all options back to default, then base + kw (addons are re-configured through the options signal)"""
+        """every option back to its default except base + kw, in ONE update (the addons are re-configured through the
+        options signal, exactly as in mitmproxy).  Options that keep their value are not touched (no CA reload)."""
         self.addon_errors = []
-        self.opts.reset()
-        upd = dict(self.base)
-        upd.update(kw)
+        want = dict(self.base)
+        want.update(kw)
+        upd = {}
+        for k in self.opts.keys():
+            if k in want:
+                if getattr(self.opts, k) != want[k]:
+                    upd[k] = want[k]
+            elif self.opts.has_changed(k):
+                upd[k] = self.opts.default(k)
         if upd:
             self.opts.update(**upd)
         # per-connection state of the addons must not leak between cases
